@@ -15,7 +15,22 @@ PROP = dict(
          "fields with 28 float boundary values; multi-entry maps; lists; multi-line payloads; random sparse/dense messages, "
          "2-6 messages per call; the same through proto.Marshal -> proto.Unmarshal -> encoder -> Join(LF) as the C binding "
          "does, incl. the C.CString cut at the first NUL (mode c; 15 % of these with a NUL byte in a string field: tag B:c.nul-truncated, correspondence only); values outside the ASCII-representable domain for the correspondence only (tag B:ood). "
-         "non-trivial = at least one line produced; distinct = distinct record text",
+         "Scenario classes (after the random stream, every run; x10 in the thorough tier): (d) eout.msgsx = messages whose fields "
+         "WITHOUT ASCII form are set — HWCEvent.Timestamp, AbsoluteEvent.PrevValue, SpeedEvent.PrevValue, BusStatus — to arbitrary "
+         "values and to values coinciding with carried ones (PrevValue = Value, = Value+1, 0, 2^32-1 at the 19 boundary values; "
+         "Timestamp = id) in every event kind, plus random messages (half of them with 60 % coinciding values): the lines must be "
+         "those of the same messages without these fields (model encOutX) and carry every event; eout.fields = the Message.field "
+         "names of the real protobuf descriptors reachable from OutboundMessage equal EncOut.protoFieldsRead ++ "
+         "protoFieldsNotCarried; (a) eout.seq = 2-5 calls on different message lists, every returned slice kept and snapshotted at "
+         "return time, the record reports the snapshots and the kept slices AS READ AFTER THE LAST CALL; eout.par = the same with the "
+         "calls of even / odd index in two goroutines, 12 repetitions each; (b) the same message / event / register more than once in "
+         "one call with others in between (A B A, A A, A ping A B A; events A B A for one id); (e) eout.reuse = a message list is "
+         "converted, its message OBJECTS are overwritten in place with a second list (sub-messages such as SysStat, PanelInfo keep "
+         "their addresses wherever both lists have one; lists with every section present) and the same pointers are converted again; "
+         "(f) payloads, message texts, names and list items of 201-6000 bytes; every record whose input or output carries a byte string "
+         "longer than 200 bytes (and every third other record) is executed a second time with DebugRWPhelpers on: a differing result "
+         "is what the record reports. Every result of a multi-call record is judged like an eout.msgs record of its call (clause "
+         "suffix @part<j>). non-trivial = at least one line produced; distinct = distinct record text",
     trusted_base=["strconv float formatting (%.1f / %.2f) and encoding/json of NetworkConfig enter as oracle values computed by the harness (strconv.FormatFloat 'f' 32 / json.Marshal), never compared numerically",
                   "Go map iteration order: the map= lines of one message are compared as a set",
                   "fmt %d / %s, strings.Join, strings.Split/TrimSpace modelled (Base/Bytes.lean) and validated by the correspondence"],
@@ -39,10 +54,17 @@ CLAIM = dict(
          "msg_line_verbatim / errormsg_line_verbatim / profile_lines_verbatim / topology_lines_verbatim: a payload without LF and outer white space is on the "
          "line byte for byte; payload_exact_noLF: the Spec's effect of such a payload is the payload itself. The topology SVG is compared by "
          "white-space-free content (its flattening inserts blanks), for every byte string. "
+         "Fields without ASCII form: proto_fields_partition (the field names of the proto definitions split into those the encoder model reads and five it "
+         "has no line for: OutboundMessage.BusStatus, BusStatus.Fault, HWCEvent.Timestamp, AbsoluteEvent.PrevValue, SpeedEvent.PrevValue), "
+         "enc_ignores_noncarried (message lists that differ only there encode equally), encOutX_sound (whatever they hold, the reader gets the "
+         "effects of the carried part). "
          "C binding: cbinding_lines (no NUL in the returned strings => the C caller, reading to the first NUL and splitting at LF, gets exactly the strings), "
          "encOut_no_nul (no NUL in the message's strings => none in the output), cbinding_nul_truncates_counterexample (a NUL cuts the C string: observation, "
          "NUL is not printable). "
-         "Rests on correspondence: model = OutboundMessagesToRawPanelASCIIstrings (sampled; all 8192 capability subsets in the thorough tier), "
+         "Rests on correspondence: model = OutboundMessagesToRawPanelASCIIstrings (sampled; all 8192 capability subsets in the thorough tier), in particular "
+         "that it is a FUNCTION of the carried part of its argument (no state kept between calls, no result storage shared with later calls or other "
+         "goroutines, nothing cached by object address, non-carried fields never read: eout.seq / eout.par / eout.reuse / eout.msgsx / eout.fields "
+         "records) and unaffected by DebugRWPhelpers, "
          "float formatting and JSON of NetworkConfig (oracle values), Go map order (map lines compared as a set), C.CString = bytes + NUL (emulated in mode c).",
     note=TB,
     technique="Lean 4 proof (list induction, decimal round trip, generic capability-table argument, UTF-8 white-space rune analysis) + model/implementation correspondence incl. the C-binding path",
